@@ -150,6 +150,8 @@ func c10Gen(t *rapid.T) MetricCase {
 		// keys that differ only in characters a label name cannot hold, keys that repeat, keys that
 		// shadow the record's own labels
 		line := rapid.SampledFrom([]string{"req.id=1 req-id=2 req_id=3", "a.b=x a_b=y", "k-1=v k_1=w k.1=z", "id=7 id=8", "x=1", "app=shadow a/b=1 a-b=2",
+			// names that differ only in the case of their letters are different names
+			"App=1 app=2", "ID=7 id=8 Id=9", "Level=info level=warn LEVEL=x", `{"ID":1,"id":2}`, `{"App":"a","app":"b","APP":"c"}`,
 			`{"req.id":1,"req-id":2,"req_id":3}`, `{"a.b":"x","a_b":"y","a b":"z"}`, `{"n":{"m":1},"n.m":2,"n_m":3}`}).Draw(t, "identical-line")
 		stage := "logfmt"
 		if strings.HasPrefix(line, "{") {
@@ -159,7 +161,7 @@ func c10Gen(t *rapid.T) MetricCase {
 		for i := 0; i < n; i++ {
 			c.Recs = append(c.Recs, model.Rec{TS: datagen.BaseTS + int64(i)*datagen.Tick, Line: gen.BS(line), Labels: map[string]string{"app": "web"}})
 		}
-		grouping := rapid.SampledFrom([]string{"", "sum by (req_id, a_b, k_1, n_m, id) (%s)", "sum without (msg) (%s)", "max(%s)", "count by (app) (%s) * %d"}).Draw(t, "identical-agg")
+		grouping := rapid.SampledFrom([]string{"", "sum by (req_id, a_b, k_1, n_m, id, ID, App, app, level, Level) (%s)", "sum without (msg) (%s)", "max(%s)", "count by (app) (%s) * %d"}).Draw(t, "identical-agg")
 		q := "count_over_time({} | " + stage + " [60y])"
 		switch {
 		case strings.HasPrefix(grouping, "count"):
